@@ -97,3 +97,9 @@ TEXT["C19"] = dict(text="Coq theorems over ALL integers: an accepted request is 
 TEXT["C20"] = dict(text="Coq theorems over ALL outcomes and ALL error trees (any wrapping depth, errors.Join): sack => SACK trace or the SACK error, SYN never attempted; prefer_sack => SYN attempted iff the SACK error tree contains NotSupported, any other failure returned with every cause, SACK success kept; syn/default => SACK never invoked; "
     "SACK-unavailable = {dial failure, no SACK-permitted, ACK without SACK blocks}; e2e probes use SYN. Correspondence: real performTCPFallback on random error trees; real runTracerouteOnce against a loopback listener with synthesised handshakes and injected faults (probe kinds on the wire, connections opened).",
     note="The classification of real SACK failures (sack_run) is validated by the real runs (kind 12), not proved from the SACK code.", technique="Coq proof (induction-free case analysis over outcome/error-tree predicates) + differential run of the real selector and the real TCP entry point")
+
+TEXT["C11"] = dict(text="Coq theorems: IP-ID blocks from ANY allocation sequence and ANY 32-bit counter value share no identifier while <= 65536 are live (incl. both wrap-arounds); n <= 65536 consecutive echo ids are distinct; a packet can be a genuine reply for two ICMP runs only if their echo ids are equal, "
+    "for two UDP/TCP/SACK runs only if they probe the same target endpoint and (direct replies / strict checking) use the same local endpoint. With C01 (hop => genuine) replies to one run's probes cannot become another run's hops unless identifiers collide. "
+    "Correspondence: real allocators (sequential + concurrent goroutines) vs the model; real driver pairs alive together, each fed the other's genuine replies.",
+    note="PARTIAL: the full lift 'k runs on a shared wire each produce their solo result' is not proved on the engine level and the shared-wire multi-run engine lab is not built; cross-protocol pairs are correspondence-only. Residues named in DESIGN (relaxed SACK to one target, Paris mode, UDP fixed IP-ID block).",
+    technique="Coq proof (modular arithmetic over all counter values; identifier-collision lemma on the genuineness predicate) + differential run of real allocators and of real driver pairs")
